@@ -27,10 +27,43 @@ type c04Case struct {
 	SignerAlg int64  `json:"signer_alg"`
 	Ext       int    `json:"ext"`             // 0 nil, 1 empty, 2 non-empty
 	Extra     rc.Val `json:"extra,omitempty"` // further protected entries (map)
+	// UnprotAlg: the unprotected bucket also holds label 1 (which must not matter): 0 no, 1 the key's
+	// algorithm, 2 another algorithm
+	UnprotAlg int `json:"unprot_alg,omitempty"`
+}
+
+// unprotAlg returns the value placed under label 1 of the unprotected bucket.
+func (c *c04Case) unprotAlg() (int64, bool) {
+	switch c.UnprotAlg {
+	case 1:
+		return c.SignerAlg, true
+	case 2:
+		if c.SignerAlg == -7 {
+			return -8, true
+		}
+		return -7, true
+	}
+	return 0, false
+}
+
+// unprotGo / unprotWire: the unprotected bucket of the case as a Go map and as bytes.
+func (c *c04Case) unprotGo() cose.UnprotectedHeader {
+	u := cose.UnprotectedHeader{}
+	if a, ok := c.unprotAlg(); ok {
+		u[int64(1)] = cose.Algorithm(a)
+	}
+	return u
+}
+
+func (c *c04Case) unprotWire() []byte {
+	if a, ok := c.unprotAlg(); ok {
+		return rc.Encode(rc.Map(rc.E(rc.Int(1), rc.Int(a))), nil)
+	}
+	return []byte{0xa0}
 }
 
 func (c *c04Case) id() string {
-	return fmt.Sprintf("%s/%s/%s/absent=%v/alg=%s/lsp=%d/signer=%d/ext=%d/extra=%d", c.Struct, c.Mode, c.Op, c.Absent, c.Alg.String(), c.LabelSp, c.SignerAlg, c.Ext, len(c.Extra.M))
+	return fmt.Sprintf("%s/%s/%s/absent=%v/alg=%s/lsp=%d/signer=%d/ext=%d/extra=%d/ualg=%d", c.Struct, c.Mode, c.Op, c.Absent, c.Alg.String(), c.LabelSp, c.SignerAlg, c.Ext, len(c.Extra.M), c.UnprotAlg)
 }
 
 func (c *c04Case) ext() []byte {
@@ -120,7 +153,7 @@ func checkC04(c c04Case) error {
 	var decodedSig *cose.Signature
 	switch c.Mode {
 	case "constructed":
-		h = cose.Headers{Protected: bridge.ToProtected(pm), Unprotected: cose.UnprotectedHeader{}}
+		h = cose.Headers{Protected: bridge.ToProtected(pm), Unprotected: c.unprotGo()}
 	case "re-decoded":
 		// a Headers value that held another message before is re-used through the public
 		// UnmarshalFromRaw: what counts is the protected header decoded last
@@ -129,7 +162,7 @@ func checkC04(c c04Case) error {
 		if err := h.UnmarshalFromRaw(); err != nil {
 			return fmt.Errorf("harness: prior headers do not decode: %v", err)
 		}
-		h.RawProtected, h.RawUnprotected = protBstr(pm), []byte{0xa0}
+		h.RawProtected, h.RawUnprotected = protBstr(pm), c.unprotWire()
 		if err := h.UnmarshalFromRaw(); err != nil {
 			stats.Class("skipped/undecodable-header")
 			return nil
@@ -138,7 +171,7 @@ func checkC04(c c04Case) error {
 		wireMap := pm
 		raw := protBstr(wireMap)
 		if c.Mode == "raw-only" {
-			h = cose.Headers{RawProtected: raw}
+			h = cose.Headers{RawProtected: raw, Unprotected: c.unprotGo()}
 			break
 		}
 		// what a decoder would produce
@@ -153,7 +186,7 @@ func checkC04(c c04Case) error {
 			}
 		}
 		if c.Mode == "raw+map" {
-			h = cose.Headers{RawProtected: raw, Protected: ph}
+			h = cose.Headers{RawProtected: raw, Protected: ph, Unprotected: c.unprotGo()}
 			break
 		}
 		// decoded: run the real message decoder on reference-built wire
@@ -161,7 +194,7 @@ func checkC04(c c04Case) error {
 		case "Sign1", "Untagged", "HashEnvelope", "Countersignature":
 			w := []byte{0x84}
 			w = append(w, raw...)
-			w = append(w, 0xa0)
+			w = append(w, c.unprotWire()...)
 			w = append(w, rc.Encode(rc.Bytes(payload), nil)...)
 			if c.Struct == "HashEnvelope" {
 				w = w[:len(w)-len(payload)-1]
@@ -170,7 +203,8 @@ func checkC04(c c04Case) error {
 			w = append(w, 0x43, 1, 2, 3)
 			if c.Struct == "Countersignature" {
 				w = append([]byte{0x83}, raw...)
-				w = append(w, 0xa0, 0x43, 1, 2, 3)
+				w = append(w, c.unprotWire()...)
+				w = append(w, 0x43, 1, 2, 3)
 				var cs cose.Countersignature
 				if err := cs.UnmarshalCBOR(w); err != nil {
 					stats.Class("skipped/undecodable-message")
@@ -188,7 +222,8 @@ func checkC04(c c04Case) error {
 			h = m.Headers
 		case "Signature":
 			w := append([]byte{0x83}, raw...)
-			w = append(w, 0xa0, 0x43, 1, 2, 3)
+			w = append(w, c.unprotWire()...)
+			w = append(w, 0x43, 1, 2, 3)
 			var s cose.Signature
 			if err := s.UnmarshalCBOR(w); err != nil {
 				stats.Class("skipped/undecodable-message")
@@ -204,6 +239,47 @@ func checkC04(c c04Case) error {
 		}
 	}
 	_ = decodedSig
+	if c.Mode == "decoded" {
+		// another message of the same kind, naming another algorithm in a protected header of the same
+		// length, is decoded (into its own variable) before the first one is used
+		other := rc.Int(-8)
+		if a, ok := c.Alg.Int64(); ok && c.Alg.K == rc.KInt {
+			switch {
+			case a == -8:
+				other = rc.Int(-7)
+			case a < -24 && a >= -256:
+				other = rc.Int(a - 1)
+			}
+		}
+		sib := rc.Map()
+		if c.Extra.K == rc.KMap {
+			sib.M = append(sib.M, c.Extra.M...)
+		}
+		sib.M = append(sib.M, rc.E(rc.Int(1), other))
+		if c.Struct == "HashEnvelope" {
+			sib.M = append(sib.M, rc.E(rc.Int(258), rc.Int(-16)))
+		}
+		sraw := protBstr(sib)
+		w := append([]byte{0x83}, sraw...)
+		w = append(w, 0xa0, 0x43, 9, 9, 9)
+		switch c.Struct {
+		case "Signature":
+			var s2 cose.Signature
+			_ = s2.UnmarshalCBOR(w)
+		case "Countersignature":
+			var s2 cose.Countersignature
+			_ = s2.UnmarshalCBOR(w)
+		default:
+			w = append([]byte{0xd2, 0x84}, sraw...)
+			w = append(w, 0xa0, 0x47)
+			w = append(w, "sibling"...)
+			w = append(w, 0x43, 9, 9, 9)
+			var m2 cose.Sign1Message
+			_ = m2.UnmarshalCBOR(w)
+			var u2 cose.UntaggedSign1Message
+			_ = u2.UnmarshalCBOR(w[1:])
+		}
+	}
 
 	spyS := &bridge.SpySigner{Alg: cose.Algorithm(c.SignerAlg)}
 	spyV := &bridge.SpyVerifier{Alg: cose.Algorithm(c.SignerAlg)}
@@ -350,6 +426,12 @@ func checkC04(c c04Case) error {
 					return finding("signed-without-alg", "%s: signed protected header does not carry the agreed alg (ToBeSigned=%x)", where, spyS.Last())
 				}
 			}
+			if equal && c.Op == "verify" && c.Mode != "raw-only" && len(spyV.Calls) == 1 {
+				// the algorithm that was checked is the one in the bytes the verifier is given
+				if a, ok := tbsProtectedAlg(spyV.Calls[0].Content, tbsIdx); !ok || a != c.SignerAlg {
+					return finding("verified-bytes-carry-other-alg", "%s: the verifier (algorithm %d) was handed a structure whose protected header does not carry that alg (ToBeSigned=%x)", where, c.SignerAlg, spyV.Calls[0].Content)
+				}
+			}
 			stats.Class("proceeds/" + map[bool]string{true: "equal", false: "absent-with-external"}[equal])
 		} else {
 			stats.Class("refused-though-allowed/" + shortErr(opErr))
@@ -361,6 +443,7 @@ func checkC04(c c04Case) error {
 	}
 	stats.Class("struct/" + c.Struct)
 	stats.Class("mode/" + c.Mode)
+	stats.Class(fmt.Sprintf("unprotected-alg/%d", c.UnprotAlg))
 	return nil
 }
 
@@ -412,7 +495,9 @@ func TestC04_Grid(t *testing.T) {
 				}
 				for _, sa := range signerAlgs {
 					for ext := 0; ext < 3; ext++ {
-						run(c04Case{Struct: st, Mode: mode, Op: op, Absent: true, SignerAlg: sa, Ext: ext})
+						for ua := 0; ua < 3; ua++ {
+							run(c04Case{Struct: st, Mode: mode, Op: op, Absent: true, SignerAlg: sa, Ext: ext, UnprotAlg: ua})
+						}
 						for _, av := range c04AlgValues() {
 							lsps := []uint8{0}
 							vsps := []uint8{av.Sp}
@@ -425,6 +510,11 @@ func TestC04_Grid(t *testing.T) {
 									v := av
 									v.Sp = vsp
 									run(c04Case{Struct: st, Mode: mode, Op: op, Alg: v, LabelSp: lsp, SignerAlg: sa, Ext: ext})
+									if lsp == 0 && vsp == av.Sp {
+										// the unprotected bucket names the key's algorithm (or another one) as well
+										run(c04Case{Struct: st, Mode: mode, Op: op, Alg: v, LabelSp: lsp, SignerAlg: sa, Ext: ext, UnprotAlg: 1})
+										run(c04Case{Struct: st, Mode: mode, Op: op, Alg: v, LabelSp: lsp, SignerAlg: sa, Ext: ext, UnprotAlg: 2})
+									}
 								}
 							}
 						}
@@ -450,6 +540,7 @@ func TestC04_Random(t *testing.T) {
 		if c.Mode == "decoded" {
 			c.Op = "verify"
 		}
+		c.UnprotAlg = rapid.SampledFrom([]int{0, 0, 1, 2}).Draw(rt, "unprot-alg")
 		switch rapid.IntRange(0, 3).Draw(rt, "algclass") {
 		case 0:
 			c.Absent = true
